@@ -1,8 +1,42 @@
 import MidnightZK.Model.Common
-/-! Line-protocol handler of property C03 (stub: answers `unimplemented`). -/
+import MidnightZK.Model.C03.Binding
+import MidnightZK.Model.C01.Parse
+/-! Line-protocol handler of property C03. -/
 namespace MidnightZK.C03.Driver
+open MidnightZK MidnightZK.C01 MidnightZK.C03
 
-def answer (_line : String) : String := "unimplemented"
+def hexBytes? (s : String) : Option (List Nat) :=
+  let rec go : List Char → Option (List Nat)
+    | [] => some []
+    | a :: b :: t => do
+      let v ← parseHex? (String.ofList [a, b])
+      let r ← go t
+      pure (v :: r)
+    | _ => none
+  go s.toList
+
+def answer (line : String) : String :=
+  match words line with
+  | "layout" :: rest =>
+    match C01.Parse.parseShape? rest, C01.Parse.parseCfg? rest with
+    | some sh, some cfg =>
+      " ".intercalate ((layout sh cfg).map fun (off, e) =>
+        s!"{off}:{match e.ty with | .G => "G" | .F => "F"}")
+    | _, _ => "bad-op"
+  | ["inststream", cols] =>
+    let parsed : Option (List (List Nat)) :=
+      if cols = "-" then some [] else (cols.splitOn "|").mapM parseNatList?
+    match parsed with
+    | some cs => if (instStream cs).isEmpty then "-" else ",".intercalate ((instStream cs).map toHex)
+    | none => "bad-op"
+  | ["scalar", hex] =>
+    match hexBytes? hex with
+    | some bs =>
+      match decodeScalar bs with
+      | some v => s!"some {toHex v}"
+      | none => "none"
+    | none => "bad-op"
+  | _ => "bad-op"
 
 end MidnightZK.C03.Driver
 
